@@ -7,7 +7,8 @@ s = open(p).read()
 def table(cmd):
     return subprocess.run(["python3", cmd], text=True, stdout=subprocess.PIPE, check=True).stdout.strip()
 for begin, end, cmd in (("<!-- status-table-begin -->", "<!-- status-table-end -->", "/verif/tools/render_status_table.py"),
-                        ("<!-- seeded-table-begin -->", "<!-- seeded-table-end -->", "/verif/tools/render_seeded_table.py")):
+                        ("<!-- seeded-table-begin -->", "<!-- seeded-table-end -->", "/verif/tools/render_seeded_table.py"),
+                        ("<!-- harmless-table-begin -->", "<!-- harmless-table-end -->", "/verif/tools/render_harmless_table.py")):
     if begin in s and end in s:
         i = s.index(begin) + len(begin); j = s.index(end)
         s = s[:i] + "\n" + table(cmd) + "\n" + s[j:]
